@@ -272,6 +272,17 @@ theorem search_panic_through_wal_counterexample :
     search ⟨1000, sizedOK⟩ (buildGroup 1000 0 0 true [.item (.mark 2), .rotate]) 0 false 2 = .panicked := by
   decide
 
+/-- The start-up path of the consensus state (`catchupReplay`) first calls
+`SearchForHeight(lastHeight+1, IgnoreDataCorruptionErrors)` to make sure that marker
+does NOT exist. On a group of exactly two files that search panics — even when the head
+file holds markers: here heights 0,1,2 | rotation | 3, search for 4. (With one file or
+three files the answer is "not found".) -/
+theorem search_startup_panic_counterexample :
+    search ⟨1000, sizedOK⟩
+      (buildGroup 1000 0 0 true [.item (.mark 1), .item (.mark 2), .rotate, .item (.mark 3), .item (.msg [0])])
+      0 true 4 = .panicked := by
+  decide
+
 /-- Partial result (soundness of "found"): for every rotation layout of well-formed
 lines with strictly increasing markers, every mode, with or without
 `IgnoreDataCorruptionErrors`: WHENEVER the search answers "found", the reader it hands
